@@ -28,6 +28,8 @@ pub enum Related {
   /// 2 a blank after every colon, 3 first letter of the first key as a \\u escape, 4 a shadowed duplicate of the first
   /// member in front); if the text is no JSON object, a fixed JSON footer / its respelling pair is not derivable: None
   JsonRespell(u8),
+  /// another string that a normalising / case-folding comparison takes for the same (`gen::confusable`)
+  Confusable(u8),
 }
 
 /// another spelling of the JSON object `text` (None if it is none or nothing changes)
@@ -83,7 +85,16 @@ pub enum SegEdit {
   Junk(u8),
   /// one character of the footer segment (or the dot in front of it) written as its percent-escape (`A` -> `%41`)
   PercentEscape(u16),
+  /// the footer segment written k = 2..=4 times in a row
+  Repeat(u8),
+  /// the segment cut down to one period of itself, if its text is periodic ("ZmZm" -> "Zm")
+  OnePeriod,
+  /// the DECODED footer with one invisible or look-alike character inserted / swapped in (soft hyphen, zero-width space /
+  /// joiners, word joiner, variation selector, or `gen::confusable`), re-encoded: another footer, spelt almost alike
+  DecodedLookAlike(u16, u8),
 }
+
+pub const INVISIBLES: [char; 12] = ['\u{ad}', '\u{200b}', '\u{200c}', '\u{200d}', '\u{2060}', '\u{feff}', '\u{fe0f}', '\u{200e}', '\u{202a}', '\u{2066}', '\u{34f}', '\u{180e}'];
 
 pub const JUNK_SEGMENTS: [&str; 8] = ["A", "=", "Zm9v=", "Zh", "!!!!", "-", "AA=A", "A A"];
 
@@ -116,6 +127,7 @@ pub fn related(orig: &Option<String>, rel: &Related) -> Option<String> {
       Some(chars[..keep].iter().collect())
     }
     Related::Extend(s) => Some(format!("{o}{}", if s.is_empty() { "x" } else { s })),
+    Related::Confusable(h) => crate::gen::confusable(&o, *h),
     Related::CaseFlip => Some(o.chars().map(|c| if c.is_ascii_lowercase() { c.to_ascii_uppercase() } else if c.is_ascii_uppercase() { c.to_ascii_lowercase() } else { c }).collect()),
     Related::LastByte(d) => {
       let mut chars: Vec<char> = o.chars().collect();
@@ -182,8 +194,8 @@ impl Sub for FooterBinding {
     cl.tag(format!("{}:{}", p.label(), s.layer.label()));
     cl.tag(format!("related:{}", match &c.rel {
       Related::Same => "same", Related::EmptyVsNone => "none-vs-empty", Related::None => "none", Related::Empty => "empty", Related::Prefix(_) => "prefix",
-      Related::Extend(_) => "extension", Related::CaseFlip => "case", Related::LastByte(_) => "last-byte", Related::Other(_) => "unrelated", Related::Decorate(..) => "invisible-decoration", Related::JsonRespell(_) => "same-json-document-respelt" }));
-    cl.tag(format!("edit:{}", match c.edit { SegEdit::Keep => "keep", SegEdit::Replace => "replace", SegEdit::Remove => "remove", SegEdit::Blank => "blank", SegEdit::Extend(_) => "extend", SegEdit::Truncate(_) => "truncate", SegEdit::Pad(_) => "pad", SegEdit::Junk(_) => "junk", SegEdit::PercentEscape(_) => "percent-escape" }));
+      Related::Extend(_) => "extension", Related::CaseFlip => "case", Related::LastByte(_) => "last-byte", Related::Other(_) => "unrelated", Related::Decorate(..) => "invisible-decoration", Related::JsonRespell(_) => "same-json-document-respelt", Related::Confusable(_) => "unicode-confusable" }));
+    cl.tag(format!("edit:{}", match c.edit { SegEdit::Keep => "keep", SegEdit::Replace => "replace", SegEdit::Remove => "remove", SegEdit::Blank => "blank", SegEdit::Extend(_) => "extend", SegEdit::Truncate(_) => "truncate", SegEdit::Pad(_) => "pad", SegEdit::Junk(_) => "junk", SegEdit::PercentEscape(_) => "percent-escape", SegEdit::Repeat(_) => "repeat", SegEdit::OnePeriod => "one-period", SegEdit::DecodedLookAlike(..) => "decoded-look-alike" }));
     // (iii) shape of the produced token
     let (header, pseg, fseg) = split_token(&t).expect("well-formed token");
     let want_seg = if norm(f).is_empty() { None } else { Some(b64(norm(f).as_bytes())) };
@@ -239,6 +251,36 @@ impl Sub for FooterBinding {
             }
             Some(format!("{}{}", cur_seg, "=".repeat(1 + (n as usize % 2))))
           }
+          SegEdit::Repeat(k) => {
+            if cur_seg.is_empty() {
+              return Verdict::Discard;
+            }
+            Some(cur_seg.repeat(2 + (k as usize % 3)))
+          }
+          SegEdit::OnePeriod => {
+            let n = cur_seg.len();
+            match (1..n).find(|p| n % p == 0 && cur_seg.as_bytes().chunks(*p).all(|c| c == &cur_seg.as_bytes()[..*p])) {
+              Some(p) => Some(cur_seg[..p].to_string()),
+              None => return Verdict::Discard,
+            }
+          }
+          SegEdit::DecodedLookAlike(at, how) => {
+            let text = match f {
+              Some(t) if !t.is_empty() => t.clone(),
+              _ => return Verdict::Discard,
+            };
+            let altered = if how % 2 == 0 {
+              let mut chars: Vec<char> = text.chars().collect();
+              chars.insert(pick(at, chars.len() + 1), INVISIBLES[(how as usize / 2) % INVISIBLES.len()]);
+              chars.into_iter().collect::<String>()
+            } else {
+              match crate::gen::confusable(&text, how / 2) {
+                Some(t) => t,
+                None => return Verdict::Discard,
+              }
+            };
+            Some(b64(altered.as_bytes()))
+          }
           SegEdit::Truncate(i) => {
             let n = SEG_DELTAS[(i as usize) % SEG_DELTAS.len()];
             if n >= cur_seg.len() {
@@ -251,7 +293,7 @@ impl Sub for FooterBinding {
         let edited_value: Option<String> = match c.edit {
           SegEdit::Replace => f2.clone(),
           // what the edited segment decodes to, if it decodes at all
-          SegEdit::Extend(_) | SegEdit::Truncate(_) => new_seg.as_deref().and_then(unb64).and_then(|b| String::from_utf8(b).ok()),
+          SegEdit::Extend(_) | SegEdit::Truncate(_) | SegEdit::Repeat(_) | SegEdit::OnePeriod | SegEdit::DecodedLookAlike(..) => new_seg.as_deref().and_then(unb64).and_then(|b| String::from_utf8(b).ok()),
           SegEdit::Pad(_) | SegEdit::PercentEscape(_) => f.clone(), // a padded / escaped segment still spells F: it must be refused under F all the same
           _ => None,
         };
@@ -276,7 +318,7 @@ impl Sub for FooterBinding {
           }
           match r {
             Err(e) => cl.tag(format!("rejected:{}", e.variant)),
-            Ok(o) => vio!("C05:accepted-edited-footer-segment:{}:{}:{}:{}", p.label(), s.layer.label(), match c.edit { SegEdit::Replace => "Replace", SegEdit::Remove => "Remove", SegEdit::Blank => "Blank", SegEdit::Extend(_) => "Extend", SegEdit::Truncate(_) => "Truncate", SegEdit::Pad(_) => "Pad", SegEdit::Junk(_) => "Junk", SegEdit::PercentEscape(_) => "PercentEscape", SegEdit::Keep => "Keep" }, who;
+            Ok(o) => vio!("C05:accepted-edited-footer-segment:{}:{}:{}:{}", p.label(), s.layer.label(), match c.edit { SegEdit::Replace => "Replace", SegEdit::Remove => "Remove", SegEdit::Blank => "Blank", SegEdit::Extend(_) => "Extend", SegEdit::Truncate(_) => "Truncate", SegEdit::Pad(_) => "Pad", SegEdit::Junk(_) => "Junk", SegEdit::PercentEscape(_) => "PercentEscape", SegEdit::Keep => "Keep", SegEdit::Repeat(_) => "Repeat", SegEdit::OnePeriod => "OnePeriod", SegEdit::DecodedLookAlike(..) => "DecodedLookAlike" }, who;
               "footer segment edited ({:?}: {:?} -> {:?}) yet accepted under the {} footer {:?}, returned {:?}; token {}", c.edit, f, edited_value, who, expect, o.message(), edited),
           }
         }
@@ -295,6 +337,7 @@ fn rel_strategy() -> BoxedStrategy<Related> {
     2 => any::<u8>().prop_map(Related::Prefix),
     2 => gen::jsonish(4).prop_map(Related::Extend),
     1 => Just(Related::CaseFlip),
+    3 => (0u8..8).prop_map(Related::Confusable),
     2 => any::<u8>().prop_map(Related::LastByte),
     2 => prop_oneof![gen::jsonish(16), gen::unicode(6)].prop_map(Related::Other),
     3 => (any::<bool>(), any::<u8>()).prop_map(|(a, i)| Related::Decorate(a, i)),
@@ -304,7 +347,7 @@ fn rel_strategy() -> BoxedStrategy<Related> {
 }
 
 fn case(proto: Proto, layer: Layer) -> BoxedStrategy<FooterCase> {
-  (tok_spec(proto, layer), rel_strategy(), prop_oneof![8 => Just(SegEdit::Keep), 4 => Just(SegEdit::Replace), 2 => Just(SegEdit::Remove), 2 => Just(SegEdit::Blank), 3 => any::<u8>().prop_map(SegEdit::Extend), 1 => any::<u8>().prop_map(SegEdit::Truncate), 1 => any::<u8>().prop_map(SegEdit::Pad), 2 => any::<u8>().prop_map(SegEdit::Junk), 2 => any::<u16>().prop_map(SegEdit::PercentEscape)])
+  (tok_spec(proto, layer), rel_strategy(), prop_oneof![8 => Just(SegEdit::Keep), 4 => Just(SegEdit::Replace), 2 => Just(SegEdit::Remove), 2 => Just(SegEdit::Blank), 3 => any::<u8>().prop_map(SegEdit::Extend), 1 => any::<u8>().prop_map(SegEdit::Truncate), 1 => any::<u8>().prop_map(SegEdit::Pad), 2 => any::<u8>().prop_map(SegEdit::Junk), 2 => any::<u16>().prop_map(SegEdit::PercentEscape), 2 => any::<u8>().prop_map(SegEdit::Repeat), 1 => Just(SegEdit::OnePeriod), 3 => (any::<u16>(), any::<u8>()).prop_map(|(a, h)| SegEdit::DecodedLookAlike(a, h))])
     .prop_map(|(tok, rel, edit)| FooterCase { tok, rel, edit })
     .boxed()
 }
